@@ -5,13 +5,14 @@ go 1.26.8
 require (
 	github.com/anishathalye/porcupine v1.3.0
 	github.com/scrapli/scrapligo v0.0.0
+	golang.org/x/crypto v0.26.0
+	golang.org/x/sys v0.23.0
 	gopkg.in/yaml.v3 v3.0.1
 )
 
 require (
 	github.com/creack/pty v1.1.23 // indirect
 	github.com/sirikothe/gotextfsm v1.0.1-0.20200816110946-6aa2cfd355e4 // indirect
-	golang.org/x/crypto v0.26.0 // indirect
 )
 
 replace github.com/scrapli/scrapligo => /repo
